@@ -20,6 +20,7 @@ Count(s, x) == Cardinality({i \in 1..Len(s) : s[i] = x})
 BagEq(s, t) == Len(s) = Len(t) /\ \A x \in ToSet(s) \cup ToSet(t) : Count(s, x) = Count(t, x)
 V1(ps, q) == [ps |-> ps, q |-> q]
 
+WrongOps == {"push_wrong", "insert_wrong", "swap_wrong", "splice_wrong", "downcast_q"}
 CloneOps == {"clone_vec", "ce_probe"}
 LazyOps  == {"lazy"}
 CapOps   == {"reserve", "reserve_exact", "shrink_to_fit", "shrink_to", "recreate"}
@@ -31,6 +32,8 @@ IterOps  == {"iter_begin", "iter_next", "iter_clone", "iter_end"}
 IsForget(a) == a.op = "range_forget" \/ (a.op \in {"consume", "next", "item_consume"} /\ a.sink.k = "forget")
 (* the property a plain behavioural mismatch of this action counts against *)
 PropOf(a) == IF a.op \in ElemOps THEN <<"C01">> ELSE IF a.op \in RangeOps THEN <<"C02">>
+             ELSE IF a.op \in WrongOps THEN <<"C04">> ELSE IF a.op = "raw_roundtrip" THEN <<"C17">>
+             ELSE IF a.op = "swap" THEN <<"C13">> ELSE IF a.op = "spare_write" THEN <<"C12">>
              ELSE IF a.op \in CapOps THEN <<"C10">> ELSE IF a.op \in CloneOps THEN <<"C08">>
              ELSE IF a.op \in LazyOps THEN <<"C09">> ELSE <<"C14">>
 PropsOf(a, lat) ==
@@ -95,8 +98,8 @@ CapViol(stb, x, ev) ==
   UNION {
     LET o == post[w]  Vb == stb.v[w]  c == CapOf(x, w)
         newlen == Len(x.st.v[w].el)
-        same == IF c.lo = -3 THEN newlen <= Vb.cap ELSE c.lo = -2
-        lo   == IF c.lo = -3 THEN Max2(newlen, Vb.cap) ELSE c.lo
+        same == IF x.lat # "exact" THEN FALSE ELSE IF c.lo = -3 THEN newlen <= Vb.cap ELSE c.lo = -2
+        lo   == IF x.lat # "exact" THEN 0 ELSE IF c.lo = -3 THEN Max2(newlen, Vb.cap) ELSE c.lo
         hi   == IF c.lo = -3 THEN -1 ELSE c.hi
     IN
     IF Excl(o.hk) \/ Excl(Vb.h.k) THEN {}
@@ -114,7 +117,7 @@ CapViol(stb, x, ev) ==
                           \cup (IF o.blk[1] = 1 /\ o.blk[3] # Cfg.ealign THEN {V1(<<"C18", "C12">>, "block_align")} ELSE {}))
                ELSE {})
     : w \in Vecs }
-  \cup (IF (\A w \in Vecs : ~Excl(post[w].hk) /\ ~Excl(stb.v[w].h.k) /\
+  \cup (IF x.lat = "exact" /\ (\A w \in Vecs : ~Excl(post[w].hk) /\ ~Excl(stb.v[w].h.k) /\
                   LET c == CapOf(x, w) IN (IF c.lo = -3 THEN Len(x.st.v[w].el) <= stb.v[w].cap ELSE c.lo = -2))
            /\ CapEvents(ev.mem) # {}
         THEN {V1(<<"C10", "C18">>, "no_allocator_traffic_when_capacity_suffices")} ELSE {})
@@ -185,7 +188,7 @@ FreshFor(stb, ev) ==
   ELSE ev.born
 
 (* notes by which the driver reports that something the library REPORTED about itself is false *)
-BadNotes == {"badtype", "bad_ce_type", "bad_ce_len", "bad_ce_value", "bad_parts", "bad_parts_clone", "shared_storage", "bad_spare"}
+BadNotes == {"wrong_type_admitted", "badtype", "bad_ce_type", "bad_ce_len", "bad_ce_value", "bad_parts", "bad_parts_clone", "shared_storage", "bad_spare"}
 
 IsFault(ev) == "fault" \in DOMAIN ev
 DropLive(stb, ev) ==
@@ -276,7 +279,7 @@ Judge(stb, ev) ==
       \cup (IF ~dropLive THEN {V1(<<"C03">> \o P, "drop_once")} ELSE {})
       \cup (IF ~cloneOk THEN {V1(P \o <<"C03">>, "clones_match")} ELSE {})
       \cup (IF ~hintOk THEN {V1(<<"C14">>, "size_hint_exact")} ELSE {})
-      \cup (IF ~typeOk THEN {V1(<<"C13", "C04">> \o P, "reports_true")} ELSE {})
+      \cup (IF ~typeOk THEN {V1(<<"C13", "C04">> \o P \o (IF a.op = "raw_roundtrip" THEN <<"C17">> ELSE <<>>), "reports_true")} ELSE {})
       \cup (IF ~ceOk THEN {V1(P, "empty_twin_clones")} ELSE {})
       diverged == ~resOk \/ ~stOk \/ ~wf
       (* next model state *)
